@@ -219,7 +219,18 @@ class G:
         if self.use_x:
             for e in self.ents:
                 if r.random() < 0.5: setup.append(f'xra:{r.choice([0, 1])}:{e}:{r.randint(0, 3)}')
+        # template (wave i, C11-i): a reactor with two despawn triggers that, while it runs, despawns both targets and
+        # queues another command — the nested runner polls while the reactor is still executing, so both despawn
+        # reactions are pending for it at once and are replayed oldest first
+        pair = None
+        if self.profile in ('lifetime', 'once', 'stale', 'recursion') and len(self.spawned) >= 2 and len(self.ents) >= 2 and r.random() < 0.2:
+            s_, h_ = r.sample(self.spawned, 2)
+            e1, e2 = r.sample(self.ents, 2)
+            self.tok += 1; self.tokens.append(self.tok)
+            setup.append(f'reg:{self.tok}:{r.choice("ccrp")}:{s_}:[dsp.{e1},dsp.{e2}' + (f',dsp.{r.choice(self.ents)}' if r.random() < 0.3 else '') + ']')
+            pair = (s_, [f'dsp:{e1}', f'dsp:{e2}', r.choice([f'run:{h_}', f'sev:{h_}:0:{self.p()}', f'run:{h_}'])])
         tops.append(('flush', spawn_first(setup)))
+        if pair: tops.append(('flush', [f'run:{pair[0]}']))
         nops = r.randint(2, 5)
         for _ in range(nops):
             kind = r.choices(['flush', 'direct', 'frame'], weights=[5, 2, 2 if self.profile != 'poll' else 6])[0]
@@ -232,8 +243,10 @@ class G:
         all_sys = list(self.sys) + list(self.wsys.values()) + list(self.xsys.values())
         for s in all_sys:
             nruns = r.choice([0, 1, 1, 2, 2, 3]) if self.profile != 'recursion' else r.choice([1, 2, 2, 3, 4])
+            if pair and s == pair[0]: nruns = max(nruns, 1)
             for run in range(nruns):
                 acts = self.actions(0, 3 if self.profile != 'recursion' else 4)
+                if pair and s == pair[0] and run == 0: acts = spawn_first(pair[1] + acts)
                 if s in self.xsys.values():
                     acts = [a for a in acts]
                 if acts: L.append(f'script {s} {run} ' + ' '.join(acts))
